@@ -132,6 +132,24 @@ def edges(ctx):
     rcpush = calls_in(prog, recv, lambda c: c.endswith("SmallVec::push"))
     ok = any(("field:" + M + "ChannelState.receiver_clock") in expand_closure_labels(prog, FlowSlicer(b).operand_labels(t["args"][0], s)) for b, s, t in rcpush)
     req(ctx, "mpsc-bounded-recv-publishes", ok, "on a bounded channel recv pushes the receiver's clock for the sender it frees", rb.loc())
+    # ... and what it publishes is the clock AFTER the message's clock was merged: the freed sender must learn what this receive learned
+    # (X.send -> R.recv -> Y.send into the freed slot orders X before Y)
+    pubs = [(b, s) for b, s, t in rcpush if ("field:" + M + "ChannelState.receiver_clock") in expand_closure_labels(prog, FlowSlicer(b).operand_labels(t["args"][0], s))]
+    ok_order = bool(pubs)
+    for b, s in pubs:
+        if b is rb:
+            # publish in recv_internal itself: a merge must lie on every path from the removal to it
+            ok_order &= bool(msg_rm) and rb.path_exists(msg_rm[-1], lambda x, s=s: x == s, lambda x: prog.site_calls(rb, x, M_VCU, icc=ICC)) is None
+        else:
+            # publish inside a closure: either the merge precedes it inside the same closure, or the site of recv_internal that runs the
+            # closure comes after a merge
+            inside = b.path_exists(None, lambda x, s=s: x == s, lambda x: prog.site_calls(b, x, M_VCU, icc=ICC)) is None
+            runs = [x for x, tt in rb.calls() if b.nkey in rb.passed_callables(tt)]
+            outside = bool(runs) and bool(msg_rm) and all(rb.path_exists(msg_rm[-1], lambda y, x=x: y == x, lambda y: prog.site_calls(rb, y, M_VCU, icc=ICC) and y != x) is None
+                                                          for x in runs)
+            ok_order &= inside or outside
+    req(ctx, "mpsc-bounded-recv-publishes-merged-clock", ok_order,
+        "the clock recv publishes for the freed sender is taken after the message's clock has been merged into the receiver", rb.loc())
     srm = calls_in(prog, send, lambda c: c.endswith("SmallVec::remove"))
     ok = any(("field:" + M + "ChannelState.receiver_clock") in expand_closure_labels(prog, FlowSlicer(b).operand_labels(t["args"][0], s)) for b, s, t in srm) and \
         bool(calls_in(prog, send, lambda c: c == UPD))
